@@ -2,7 +2,7 @@
 import struct
 import collections
 
-from checks.common import UdpCheck, gen_traffic, limits, Monitor
+from checks.common import UdpCheck, gen_traffic, limits, Monitor, FragExpiryProbe
 from checks.c05 import open_pairs, lenclass
 from world.udpworld import sig, PacketType
 
@@ -79,7 +79,8 @@ class C06(UdpCheck):
 
     def monitors(self, case):
         self.mon = FragWire()
-        return [self.mon]
+        self.fx = FragExpiryProbe()
+        return [self.mon, self.fx]
 
     def nontrivial(self, w, case):
         cap1 = limits(case["cfg"]["mtu"])["cap1"]
@@ -154,9 +155,10 @@ class C06(UdpCheck):
                         continue
                     if dl[key] < 1:
                         side = "server" if rec["who"] == "S" else "client"
-                        vs.append({"kind": "lossfree_not_delivered", "key": "%s:%s" % (side, lenclass(mtu, rec["len"])),
+                        cause, purged = self.fx.cause(w, rec, w.conn_name(sconn if rec["who"] != "S" else cconn))
+                        vs.append({"kind": "lossfree_not_delivered", "key": "%s:%s:%s" % (side, lenclass(mtu, rec["len"]), cause),
                                    "detail": {"len": rec["len"], "retry": rec["retry"], "api": rec["api"], "mtu": mtu,
-                                              "who": rec["who"], "t": rec["t"]}})
+                                              "who": rec["who"], "t": rec["t"], "purged": purged}})
         return vs
 
 
